@@ -1730,19 +1730,34 @@ def cpu_times(percpu=False):
         return _psplatform.per_cpu_times()
 
 
-try:
-    _last_cpu_times = {threading.current_thread().ident: cpu_times()}
-except Exception:  # noqa: BLE001
-    # Don't want to crash at import time.
-    _last_cpu_times = {}
+class _LastCpuTimes(threading.local):
+    """Previous samples of cpu_percent() and cpu_times_percent(). They
+    are per thread. They used to live in dicts keyed by thread ident,
+    but an ident is handed to a new thread as soon as its owner is
+    gone, so a new thread could inherit the sample of a dead one (and
+    the dicts only ever grew). Thread-local storage goes away with
+    its thread. Every thread gets its own instance __dict__.
+    """
 
+    def __init__(self):
+        self.cpu_times = None
+        self.per_cpu_times = None
+        self.cpu_times_2 = None
+        self.per_cpu_times_2 = None
+
+
+# The importing thread starts with the samples taken at import time.
+_last = _LastCpuTimes()
 try:
-    _last_per_cpu_times = {
-        threading.current_thread().ident: cpu_times(percpu=True)
-    }
+    _last.cpu_times = _last.cpu_times_2 = cpu_times()
 except Exception:  # noqa: BLE001
     # Don't want to crash at import time.
-    _last_per_cpu_times = {}
+    pass
+try:
+    _last.per_cpu_times = _last.per_cpu_times_2 = cpu_times(percpu=True)
+except Exception:  # noqa: BLE001
+    # Don't want to crash at import time.
+    pass
 
 
 def _cpu_tot_time(times):
@@ -1836,7 +1851,6 @@ def cpu_percent(interval=None, percpu=False):
       2.9
       >>>
     """
-    tid = threading.current_thread().ident
     blocking = interval is not None and interval > 0.0
     if interval is not None and interval < 0:
         msg = f"interval is not positive (got {interval})"
@@ -1860,9 +1874,9 @@ def cpu_percent(interval=None, percpu=False):
             t1 = cpu_times()
             time.sleep(interval)
         else:
-            t1 = _last_cpu_times.get(tid) or cpu_times()
-        _last_cpu_times[tid] = cpu_times()
-        return calculate(t1, _last_cpu_times[tid])
+            t1 = _last.cpu_times or cpu_times()
+        _last.cpu_times = t2 = cpu_times()
+        return calculate(t1, t2)
     # per-cpu usage
     else:
         ret = []
@@ -1870,17 +1884,11 @@ def cpu_percent(interval=None, percpu=False):
             tot1 = cpu_times(percpu=True)
             time.sleep(interval)
         else:
-            tot1 = _last_per_cpu_times.get(tid) or cpu_times(percpu=True)
-        _last_per_cpu_times[tid] = cpu_times(percpu=True)
-        for t1, t2 in zip(tot1, _last_per_cpu_times[tid]):
+            tot1 = _last.per_cpu_times or cpu_times(percpu=True)
+        _last.per_cpu_times = tot2 = cpu_times(percpu=True)
+        for t1, t2 in zip(tot1, tot2):
             ret.append(calculate(t1, t2))
         return ret
-
-
-# Use a separate dict for cpu_times_percent(), so it's independent from
-# cpu_percent() and they can both be used within the same program.
-_last_cpu_times_2 = _last_cpu_times.copy()
-_last_per_cpu_times_2 = _last_per_cpu_times.copy()
 
 
 def cpu_times_percent(interval=None, percpu=False):
@@ -1896,7 +1904,6 @@ def cpu_times_percent(interval=None, percpu=False):
     *interval* and *percpu* arguments have the same meaning as in
     cpu_percent().
     """
-    tid = threading.current_thread().ident
     blocking = interval is not None and interval > 0.0
     if interval is not None and interval < 0:
         msg = f"interval is not positive (got {interval!r})"
@@ -1925,9 +1932,9 @@ def cpu_times_percent(interval=None, percpu=False):
             t1 = cpu_times()
             time.sleep(interval)
         else:
-            t1 = _last_cpu_times_2.get(tid) or cpu_times()
-        _last_cpu_times_2[tid] = cpu_times()
-        return calculate(t1, _last_cpu_times_2[tid])
+            t1 = _last.cpu_times_2 or cpu_times()
+        _last.cpu_times_2 = t2 = cpu_times()
+        return calculate(t1, t2)
     # per-cpu usage
     else:
         ret = []
@@ -1935,9 +1942,9 @@ def cpu_times_percent(interval=None, percpu=False):
             tot1 = cpu_times(percpu=True)
             time.sleep(interval)
         else:
-            tot1 = _last_per_cpu_times_2.get(tid) or cpu_times(percpu=True)
-        _last_per_cpu_times_2[tid] = cpu_times(percpu=True)
-        for t1, t2 in zip(tot1, _last_per_cpu_times_2[tid]):
+            tot1 = _last.per_cpu_times_2 or cpu_times(percpu=True)
+        _last.per_cpu_times_2 = tot2 = cpu_times(percpu=True)
+        for t1, t2 in zip(tot1, tot2):
             ret.append(calculate(t1, t2))
         return ret
 
